@@ -1,19 +1,120 @@
-"""C56 -- flattened / JSON events format alike: bounded only (string.Formatter and json internals)."""
-from contracts._parts import bounded, EXPLORATION_NOTE
+"""C56 -- flattened / JSON events format alike.
 
-CONTRACTS = []
+Deductive (one function): KeyFlattener.flatKey -- the naming scheme that lets flatFormat find, for the k-th field of a
+format string, the value flattenEvent stored for it: the key is  name!conversion:spec  for the first occurrence of that
+triple and  name!conversion:spec/n  for the n-th, the occurrence table counts exactly this key and nothing else changes.
+(str.format with this fixed template is replaced by its meaning, the concatenation; the table is an SMT array.)
+Everything else -- string.Formatter parsing, the two loops, json -- is bounded only.
+"""
+import z3
+
+from pyvc.api import *
+from pyvc import core, models
+from contracts._parts import bounded, EXPLORATION_NOTE
+from twisted.logger import _flatten
+
+STRSEQ = core.IntSeq
+
+
+class Counts(models.SDict):
+    """KeyFlattener.keys, a defaultdict(lambda: 0): an array from key text to the number of times it was produced"""
+
+    def __init__(self, name):
+        self.arr = z3.Array(name, STRSEQ, z3.IntSort())
+        self.arr0 = self.arr
+
+    def has(self, key):
+        return True
+
+    def get_item(self, key):
+        return core.mk_num(self.arr[core.seq_term(key, "str")])
+
+    def set(self, key, v):
+        self.arr = z3.Store(self.arr, core.seq_term(key, "str"), core.num_term(v))
+
+    def nonempty(self):
+        raise core.Unsupported("truth value of the occurrence table")
+
+
+def format_model(I, template, *a, **kw):
+    """'{fieldName}!{conversion}:{formatSpec}'.format(...) : the three texts with '!' and ':' between them"""
+    if template != "{fieldName}!{conversion}:{formatSpec}" or a or set(kw) != {"fieldName", "conversion", "formatSpec"}:
+        return NotImplemented
+    return kw["fieldName"] + "!" + kw["conversion"] + ":" + kw["formatSpec"]
+
+
+def dec_str(n):
+    return core.SSeq(models.decenc()(core.num_term(n)), "str")
+
+
+def str_model(I, x):
+    """str(n) of the occurrence count (a positive int): its decimal spelling"""
+    if isinstance(x, core.SInt):
+        if not I.truth(x >= 1):
+            raise core.Unsupported("str() of an int not known to be positive")
+        return dec_str(x)
+    if isinstance(x, core.SSeq) and x.kind == "str":
+        return x
+    if not is_sym(x):
+        return str(x)
+    raise core.Unsupported("str() of %r" % type(x))
+
+
+class FlatKey(Contract):
+    prop = "C56"
+    module = "twisted.logger._flatten"
+    function = "KeyFlattener.flatKey"
+    differential = False
+    replay_decides = False  # the occurrence table is an SMT array, not an input
+    calls = {"str.format": format_model, "builtins.str": lambda I, x="": str_model(I, x), "str": lambda I, x="": str_model(I, x)}
+    inputs = dict(field=Str(small_len=1), spec=Opt(Str(small_len=1)), conv=Opt(Str(alphabet="rs", small_len=1)), seen=Int(lo=0, small=[0, 1, 5]))
+    trusted = ["str.format with the fixed template '{fieldName}!{conversion}:{formatSpec}' is the concatenation of the three "
+               "texts with '!' and ':' (PEP 3101: str arguments, no conversion, empty format spec)",
+               "str(n) of a positive int is its decimal spelling (decenc)"]
+
+    def setup(self, i):
+        counts = Counts(ctx().fresh_name("c56_counts") if ctx().concrete is False else "c56_counts")
+        kf = self.make(_flatten.KeyFlattener, keys=counts)
+        base = i.field + "!" + ("" if i.conv is None else i.conv) + ":" + ("" if i.spec is None else i.spec)
+        ctx().assume(counts.arr[core.seq_term(base, "str")] == core.num_term(i.seen))
+        return dict(self=kf, args=[i.field, i.spec, i.conv], objs=dict(kf=kf), ghost=dict(counts=counts, base=base))
+
+    def bounded_inputs(self, tier):
+        return iter(())  # the real defaultdict and str.format run in every bounded class
+
+    raises = ()
+
+    def _key(S):
+        base, counts, n = S.ghost["base"], S.ghost["counts"], S.i.seen + 1
+        want = ite(S.i.seen == 0, base, base + "/" + dec_str(n))
+        frame = core.mk_bool(counts.arr == z3.Store(counts.arr0, core.seq_term(base, "str"), core.num_term(n)))
+        return band(veq(S.result, want), frame)
+
+    ensures = dict(key_is_triple_text_numbered_from_the_second_occurrence_and_only_its_count_changes=_key)
+    canaries = [("if n != 1:", "if n > 2:", "key_is_triple_text_numbered_from_the_second_occurrence_and_only_its_count_changes"),
+                ("self.keys[result] += 1", "self.keys[result] += 2", "key_is_triple_text_numbered_from_the_second_occurrence_and_only_its_count_changes")]
+
+
+CONTRACTS = [FlatKey]
 BOUNDED = bounded("C56")
 NOTES = dict(
-    explanation="formatEvent on the original event vs after flattenEvent vs after a JSON round trip, for format "
-                "strings generated from syntax trees over a 27-key event graph.",
-    not_covered=["everything deductively: string.Formatter parsing and json are library internals"],
+    explanation="KeyFlattener.flatKey (the key naming and occurrence numbering flattenEvent and flatFormat share) proved; "
+                "formatEvent on the original event vs after flattenEvent vs after a JSON round trip, for format "
+                "strings generated from syntax trees over a 27-key event graph: bounded.",
+    not_covered=["flattenEvent / flatFormat / extractField loops, string.Formatter parsing and json deductively "
+                 "(library internals; both SMT solvers answer unknown on str.format-style parsing): bounded tier only"],
 )
 MANIFEST = dict(
-    category="exploration",
-    text="No function of this property is within the deductive verifier's reach (string.Formatter, json). Bounded "
+    category="proof",
+    text="KeyFlattener.flatKey is proved, for any field name, format spec, conversion and any state of the occurrence "
+         "table, to return  name!conversion:spec  on the first occurrence of that triple and  name!conversion:spec/n  on the "
+         "n-th, counting exactly that key and changing no other entry -- the naming scheme through which flatFormat finds "
+         "the value flattenEvent stored for the k-th field.  No other function of this property is within the deductive "
+         "verifier's reach (string.Formatter, json).  Bounded "
          "stand-in: every lookup path of the event graph up to 4 (thorough 6) steps, all conversions, repeated fields "
-         "and separators; the classes of format features on which the tree genuinely differs (format specifications, "
+         "and separators, values whose str() / repr() re-enter the logger; the classes of format features on which the tree genuinely differs (format specifications, "
          "!a, call followed by lookup, attributes shadowed by the call wrapper) are known findings.",
-    note=EXPLORATION_NOTE,
-    technique="bounded exhaustive evaluation of an executable contract on the real code (stand-in; not proved)",
+    note="Trusted: pyvc, SMT solvers, str.format with the one fixed template and str(int) replaced by their meaning; the "
+         "occurrence table as an SMT array.  " + EXPLORATION_NOTE,
+    technique="contract-based deductive verification of the key naming function (SMT sequences and arrays) + bounded exhaustive evaluation of an executable contract on the real code for everything else",
 )
